@@ -193,6 +193,8 @@ type WGRecord struct {
 	MappedAt    sim.VTimeInSec
 	Completions int
 	CompletedAt sim.VTimeInSec
+	// Locations are the register/LDS placements the dispatcher chose for the wavefronts
+	Locations []protocol.WfDispatchLocation
 }
 
 // DispatchTrace observes work-group mapping and completion messages at the compute units.
@@ -217,6 +219,7 @@ func (d *DispatchTrace) Func(ctx sim.HookCtx) {
 			if p, ok := ctx.Domain.(sim.Port); ok {
 				r.CU = p.Name()
 			}
+			r.Locations = append(r.Locations, req.Wavefronts...)
 			d.ByReq[req.ID] = r
 			d.Order = append(d.Order, req.ID)
 		}
